@@ -43,7 +43,7 @@ type gbCase struct {
 	Pair       string  `json:"pair"` // inproc, process
 	TLS        string  `json:"tls"`  // "", "auto" (process pairs)
 	Launch     string  `json:"launch"`
-	Translate  string  `json:"translate,omitempty"` // "tcpforward": a custom runner whose address translation changes network and address
+	Translate  string  `json:"translate,omitempty"` // a custom runner with a non-identity address translation: "tcpforward" (network and address change), "symlink" (another path, direction matters)
 	Sequential bool    `json:"sequential"`
 	Ests       []gbEst `json:"ests"`
 	Hold       *gbHold `json:"hold,omitempty"`
@@ -122,7 +122,7 @@ func runGBCase(c gbCase, bin, tmp string, t *testing.T) map[string]interface{} {
 	} else {
 		pc := &vp.PluginCfg{LegacyVersion: 1, Legacy: &vp.SetCfg{Proto: "grpc", Tag: "1"}, GRPCServer: true}
 		hc := &vp.HostCfg{LegacyVersion: 1, Legacy: &vp.SetCfg{Proto: "grpc", Tag: "1"}, Allowed: []string{"grpc"}, Mux: c.Mux, TLS: c.TLS,
-			Launch: c.Launch, TempDir: tmp, Forward: c.Translate == "tcpforward"}
+			Launch: c.Launch, TempDir: tmp, Translate: c.Translate}
 		p := vp.NewPair(bin, hc, pc, []string{"TMPDIR=" + tmp}, nil)
 		s, proto, err := p.Dispense()
 		if err != nil {
